@@ -729,6 +729,7 @@ func writeCounts(o *vh.Out, dir string) {
 func main() {
 	f := vh.ParseFlags()
 	o := vh.NewOut(f.Out)
+	o.Samples = []string{} // never JSON null, also when every child crashed
 	defer o.Close()
 	if *childMode != "" {
 		defer writeCounts(o, f.Out)
